@@ -111,6 +111,7 @@ func runC15(c *Ctx) {
 	// the object store under test: an overwrite of a key (blobs shared by concurrent uploads) is never visible truncated
 	checkLocalfsPutOpens(c, c.P.Func("pkg/storage/localfs.localFS.Put"))
 	checkEffectDominance(c, "effects.dominance", concPkgs...)
+	checkPrefetchHandoff(c, "reader.prefetch-handoff")
 }
 
 type concGuard struct {
